@@ -1,13 +1,35 @@
 #!/usr/bin/env python3
 """setup_cmd: build the Lean project (models, proofs, property theorems of every enabled check, driver)
-from files on disk.  Offline; no network, no Mathlib `require`."""
+from files on disk.  Offline; no network, no Mathlib `require`.
+
+The driver and each property's modules are built as separate lake invocations so that one property whose
+proofs no longer elaborate cannot prevent the others from being built: its own check then reports the broken
+obligation (S1), and every other check runs normally.  Exit status is 0 unless lake itself cannot run."""
 import importlib, os, subprocess, sys
 here = os.path.dirname(os.path.abspath(__file__))
 sys.path.insert(0, here)
 lean = os.path.join(os.path.dirname(here), 'lean')
-targets = ['opusmodel']
-for pid in open(os.path.join(here, 'props', 'ENABLED')).read().split():
-    targets += importlib.import_module('props.' + pid).LEAN_MODULES
 os.makedirs(os.path.join(os.path.dirname(here), '.cache'), exist_ok=True)
-rc = subprocess.call(['lake', 'build'] + sorted(set(targets)), cwd=lean)
-sys.exit(rc)
+
+
+def build(targets):
+    return subprocess.call(['lake', 'build'] + sorted(set(targets)), cwd=lean)
+
+
+failed = []
+if build(['opusmodel']) != 0:
+    failed.append('opusmodel (driver)')
+allmods = []
+for pid in open(os.path.join(here, 'props', 'ENABLED')).read().split():
+    try:
+        allmods.append((pid, importlib.import_module('props.' + pid).LEAN_MODULES))
+    except Exception as e:       # a broken props module must not stop the others either
+        failed.append('%s (tools/props: %s)' % (pid, e))
+# one invocation for everything is fastest; fall back to per-property builds when it fails
+if build([m for _, ms in allmods for m in ms]) != 0:
+    for pid, ms in allmods:
+        if build(ms) != 0:
+            failed.append('%s %s' % (pid, ms))
+if failed:
+    print('setup: the following targets did not build (their checks will report it): ' + '; '.join(failed))
+sys.exit(0)
